@@ -24,6 +24,8 @@ import Serif.Drive.C11
 import Serif.Drive.C12
 import Serif.Drive.C13
 import Serif.Drive.C07
+import Serif.Drive.C03
+import Serif.Drive.C18
 open Lean Serif.Wire
 
 def dispatch (p fam : String) (c impl : Json) : P Json :=
@@ -46,6 +48,8 @@ def dispatch (p fam : String) (c impl : Json) : P Json :=
   | "C12" => Serif.Drive.C12.handle fam c impl
   | "C13" => Serif.Drive.C13.handle fam c impl
   | "C07" => Serif.Drive.C07.handle fam c impl
+  | "C03" => Serif.Drive.C03.handle fam c impl
+  | "C18" => Serif.Drive.C18.handle fam c impl
   | _ => .error s!"unknown property {p}"
 
 def answer (line : String) : Json :=
